@@ -71,15 +71,15 @@ Next == UNCHANGED <<k, p, sc>> /\ (QGet \/ QGlob)
 Lem_Get == \A ic \in BOOLEAN:
   (SibUnique(Ch, Names, ic) /\ Spellable(Names, "/")) =>
     \A m \in Nodes, n \in Nodes:
-      /\ Get(Par, Ch, Names, m, AbsPathOf(Par, Names, n), ic, FALSE) = OkR(<<n>>)
-      /\ Get(Par, Ch, Names, m, RelPathOf(Par, Names, m, n), ic, FALSE) = OkR(<<n>>)
+      /\ Get(Par, Ch, Names, m, AbsPathOf(Par, Names, n), ic, FALSE) = OkG(<<n>>)
+      /\ Get(Par, Ch, Names, m, RelPathOf(Par, Names, m, n), ic, FALSE) = OkG(<<n>>)
       \* on wildcard-free names the strict glob finds exactly that node, too
       /\ (\A x \in Nodes: ~IsWild(Names[x])) =>
             AGlob(Par, Ch, Names, m, AbsPathOf(Par, Names, n), ic, FALSE) = OkR(<<n>>)
 Thm_Get == [][zlast'.q = "get" =>
                LET z == zlast'
                    st == GetStrict(Par, Ch, Names, z.s, z.cs, z.ic) IN
-               IF z.relax THEN z.res = (IF st.err = "none" THEN st ELSE OkR(<<>>)) ELSE z.res = st]_vars
+               IF z.relax THEN z.res = (IF st.err = "none" THEN st ELSE OkG(<<>>)) ELSE z.res = st]_vars
 
 (***************************************************************************)
 (* C08: the as-built recursion satisfies the property predicates.          *)
